@@ -185,7 +185,7 @@ func cmdCheck(args []string) int {
 		t0 := start // wall time includes loading and SSA construction of /repo
 		c := &Ctx{P: P, Prop: id, Tier: *tier}
 		registry[id].Run(c)
-		c.Group(id+"/error-discipline", "in the property's anchor files no function reports success after a call of one of the module's own fallible functions whose error was not found nil, logged, matched with a sentinel, or listed as deliberately ignored", func() { ruleErrorDiscipline(c) })
+		c.Group(id+"/error-discipline", "in the property's anchor files no function reports success after a call of one of the module's own fallible functions whose error was not found nil, logged, matched with a sentinel, or listed as deliberately ignored", func() { ruleErrorDiscipline(c); ruleNoSwallowedFailure(c) })
 		extra := map[string]interface{}{"load_s": P.LoadS}
 		if len(renamesSeen) > 0 {
 			extra["subjects_resolved_by_fingerprint"] = dedupe(renamesSeen)
